@@ -237,6 +237,7 @@ func (srv *simServer) checkRows(batch input.Batch, toks []float32, vis [][][]vis
 		req  *reqState
 	}
 	infos := map[int]*seqInfo{}
+	reported := false
 	for i, slot := range batch.Sequences {
 		info := infos[slot]
 		if info == nil {
@@ -266,7 +267,9 @@ func (srv *simServer) checkRows(batch input.Batch, toks []float32, vis [][][]vis
 				}
 			}
 		}
-		if info.sq == nil {
+		if info.sq == nil || reported {
+			// (the per-slot bookkeeping above is needed for every slot of the batch; one
+			// kv-history report per Forward is enough)
 			continue
 		}
 		p := int(batch.Positions[i])
@@ -372,7 +375,8 @@ func (srv *simServer) checkRows(batch input.Batch, toks []float32, vis [][][]vis
 			srv.w.violate("C07", "kv-history", "kv-history:"+sig,
 				"%s: slot %d layer %d (%s): batch row %d (token %d at position %d) %s\n  visible through the mask: %s\n  slot record + pending: [%s]\n  operations on this cache sequence since it was last cleared: %v (undefined after failed Remove: %v)\n  request: %v",
 				srv.name, slot, l, srv.layerKind(l), i, int32(toks[i]), p, detail, sb.String(), tokensString(info.want), ref.ops, ref.undefined, info.req)
-			return
+			reported = true
+			break
 		}
 	}
 }
